@@ -457,7 +457,41 @@ CONVS = {'cf1d': ['face'], 'cf2d': ['face'], 'shoc_simple': ['face'],
          'shoc_standard': ['face', 'left', 'back', 'node'], 'ugrid': ['face', 'edge', 'node']}
 
 
+def body_many(ctx, ny, nx, npts):
+    """Many cells and many requests (beyond any block size): every request gets the value of its own cell, in request
+    order, misses are handled as the policy says."""
+    from emsarray.operations import point_extraction
+    lat, lon = numpy.linspace(-40.0, -10.0, ny), numpy.linspace(110.0, 160.0, nx)
+    cell = numpy.arange(ny * nx, dtype=float).reshape(ny, nx)
+    ds = builders.cf1d(ny, nx, lat=lat, lon=lon, data_vars={'cell': (('y', 'x'), cell)})
+    rng = numpy.random.default_rng(int(ctx.int('seed', 1, 2)))
+    px = 109.0 + rng.random(npts) * 52.0
+    py = -41.0 + rng.random(npts) * 32.0
+    dy, dx = (lat[1] - lat[0]) / 2, (lon[1] - lon[0]) / 2
+    inside = (px > lon[0] - dx + 1e-9) & (px < lon[-1] + dx - 1e-9) & (py > lat[0] - dy + 1e-9) & (py < lat[-1] + dy - 1e-9)
+    # keep clear of cell edges so that "nearest axis value" is the cell
+    fx, fy = (px - (lon[0] - dx)) / (2 * dx), (py - (lat[0] - dy)) / (2 * dy)
+    clear = (numpy.abs(fx - numpy.round(fx)) > 1e-6) & (numpy.abs(fy - numpy.round(fy)) > 1e-6)
+    px, py, inside = px[clear], py[clear], inside[clear]
+    want = numpy.where(inside, numpy.floor((py - (lat[0] - dy)) / (2 * dy)).clip(0, ny - 1) * nx + numpy.floor((px - (lon[0] - dx)) / (2 * dx)).clip(0, nx - 1), numpy.nan)
+    pts = [shapely.Point(x, y) for x, y in zip(px, py)]
+    sel = ds.ems.select_points(pts, missing_points='drop')
+    ctx.check([int(v) for v in sel['point'].values] == [k for k in range(len(pts)) if inside[k]], "'drop' labels the remaining points with their original positions")
+    ctx.check(bool(numpy.array_equal(sel['cell'].values, want[inside])), 'select_points[drop]: each remaining request holds the value of its own cell')
+    df = pandas.DataFrame({'lon': px, 'lat': py})
+    ext = point_extraction.extract_dataframe(ds, df, ('lon', 'lat'), missing_points='fill')
+    ctx.check(len(ext['point']) == len(pts) and bool(numpy.array_equal(ext['cell'].values, want, equal_nan=True)),
+              "extract_dataframe[fill]: row k holds the values of its cell, misses hold missing data (cell)")
+    try:
+        ds.ems.select_points(pts, missing_points='error')
+        ctx.check(bool(inside.all()), "'error' must raise when a point misses")
+    except point_extraction.NonIntersectingPoints as e:
+        ctx.check([int(i) for i in e.indexes] == [k for k in range(len(pts)) if not inside[k]], "'error' names exactly the points that miss, by position")
+
+
 def cases(tier):
+    yield Case('many:101x100:2500-points', body_many, dict(ny=101, nx=100, npts=2500), max_paths=4)
+    yield Case('many:5x6:1001-points', body_many, dict(ny=5, nx=6, npts=1001), max_paths=4)
     for conv in ('cf2d', 'shoc_simple'):
         yield Case(f'points:{conv}:select_points:drop:2:misdim', body_points,
                    dict(conv=conv, nreq=2, policy='drop', api='select_points', dimname=None, int_coords='misdim'), max_paths=50000, split=16)
